@@ -46,9 +46,11 @@ func (state *singleRateLimitState) TryToIncrement(
 	state.windowData = windowData
 	state.ensureWindowIsUpdated()
 
+	// the ratio is a percentage divided by 100, so the product may land a hair above an
+	// integer (100 * (7.0/100) = 7.000000000000001): keep Ceil from adding a whole request
 	maxAllowedInWindows := int64(math.Ceil(float64(
-		windowData.AllowedRequestCount+state.spillover) *
-		windowData.QuotaAllocationRatio))
+		windowData.AllowedRequestCount+state.spillover)*
+		windowData.QuotaAllocationRatio - 1e-9))
 	if state.counter >= maxAllowedInWindows {
 		return CurrentLimitState{state.counter, Block}
 	}
